@@ -2,7 +2,7 @@
 # tools/seedintake.sh <seedout-dir> <Cxx> <first-letter> [extra checks...] : confirm each change k of <seedout-dir>/<k>, keep the
 # confirmed ones as /verif/seeded/<Cxx>-<letter>, run the quick check(s) against them; prints one line per step.
 src=$1; pid=$2; letter=$3; shift 3; extra="$@"
-letters=(a b c d e f g h i j k l m n o p)
+letters=(a b c d e f g h i j k l m n o p q r s t u v w)
 idx=0; for i in "${!letters[@]}"; do [ "${letters[$i]}" = "$letter" ] && idx=$i; done
 for k in $(ls $src | sort -n); do
   [ -f $src/$k/patch.diff ] || continue
